@@ -324,6 +324,12 @@ func (u *upstream) updateClients(clients map[string]*client) {
 
 func (u *upstream) handleRedirection(req *simpleRequest, resp *RespValue) {
 	err := strings.Split(string(resp.Text), " ")
+	// Format: MOVED|ASK <slot> <host:port>, answer with the error as it is
+	// if it is malformed.
+	if len(err) < 3 {
+		req.SetResponse(resp)
+		return
+	}
 	hostAddr := err[2]
 	switch strings.ToLower(err[0]) {
 	case MOVED:
